@@ -60,8 +60,9 @@ def judge(ctx, t, r, mode):
 def run(ctx):
     import hashlib, json
     rng = ctx.rng
-    nworlds = (26 if ctx.tier == "quick" else 160) * ctx.escalate
-    tasks = matrix.gen_tasks(rng, nworlds, ctx.tier, per_world=None if ctx.tier == "thorough" else 22)
+    nworlds = (24 if ctx.tier == "quick" else 160) * ctx.escalate
+    # every catalogue operation on every world (so each op is exercised ~20 times per quick run)
+    tasks = matrix.gen_tasks(rng, nworlds, ctx.tier, per_world=None)
     if ctx.replay:
         d = ctx.replay["failure"]["desc"]
         tasks.insert(0, {"id": "replay", "world": d["world"], "op": d["op"], "args": d["args"], "group": "replay"})
